@@ -764,6 +764,80 @@ def S_edge(f, br, t):
     pred = d.pred if taken_true else ('ne' if d.pred == 'eq' else 'eq')
     return (pred, a, b)
 
+MEM_SINKS = ('snprintf', 'sprintf', 'vsnprintf', 'strcpy', 'strncpy', 'strcat', 'strncat', 'memcpy', 'buf_strappend', 'buf_strnappend', 'buf_prints',
+             'buf_m4_define', 'buf_m4_undefine', 'buf_strdefine', 'xstrdup', 'strdup')
+
+def _reads_option_state(prog, g, depth=0):
+    """function g (not a setter) loads a field of ctrl/env: its result depends on options"""
+    if g is None or not g.blocks or depth > 2: return None
+    res = ir.Resolver(g)
+    for x in g.ins:
+        if x.op == 'load':
+            c = ir.loc_class(res.loc(x.ops[0]))
+            if c and c[0] == 'field' and c[1] in ('ctrl_bundle_t', 'env_bundle_t'): return c[2]
+    return None
+
+def r9(ctx):
+    """R9: flexinit() runs before the input file is read, so the options it sees are only the command line's: a value it
+    derives from an option field and stores away (a composed file name, a copied string) ignores the %option spelling of the
+    same option.  In flexinit no value loaded from a field of ctrl/env, and no result of a function that reads such a field,
+    flows into an argument of a call that composes or copies a string (snprintf, strcpy, buf_*, strdup ...).  Options are
+    only *recorded* there; everything derived from them is computed in check_options()/readin()/later."""
+    rep = ctx.rep; prog = ctx.flex
+    f = prog.fn('flexinit')
+    if f is None: rep.broken('flexinit() not found')
+    if prog.fn('check_options') is None: rep.broken('check_options() not found')
+    res = ir.Resolver(f)
+    taint = {}          # reg -> description of the option-dependent source
+    slots = {}          # local slot -> description
+    changed = True; rounds = 0
+    while changed and rounds < 10:
+        changed = False; rounds += 1
+        for x in f.ins:
+            if x.res is None or x.res in taint: continue
+            src = None
+            if x.op == 'load':
+                c = ir.loc_class(res.loc(x.ops[0]))
+                if c and c[0] == 'field' and c[1] in ('ctrl_bundle_t', 'env_bundle_t'): src = '%s.%s' % ('ctrl' if c[1].startswith('ctrl') else 'env', c[2])
+                elif repr(x.ops[0]) in slots: src = slots[repr(x.ops[0])]
+            elif x.op == 'call' and isinstance(x.callee, str) and x.callee not in MEM_SINKS:
+                fld = _reads_option_state(prog, prog.fn(x.callee))
+                if fld is not None and x.callee not in ('backend_by_name',): src = '%s() (reads %s)' % (x.callee, fld)
+            elif x.op in ('bitcast', 'getelementptr', 'sext', 'zext', 'trunc', 'add', 'sub', 'select', 'phi', 'inttoptr', 'ptrtoint'):
+                for o in x.ops:
+                    if isinstance(o, tuple) and o[0] == 'reg' and o[1] in taint: src = taint[o[1]]
+            if src is not None: taint[x.res] = src; changed = True
+        for x in f.ins:
+            if x.op == 'store' and x.ops[0][0] == 'reg' and x.ops[0][1] in taint and repr(x.ops[1]) not in slots:
+                l = res.loc(x.ops[1])
+                if l and l[0] == 'local': slots[repr(x.ops[1])] = taint[x.ops[0][1]]; changed = True
+    n = 0
+    for c in f.ins:
+        if c.op != 'call' or c.callee not in MEM_SINKS: continue
+        n += 1
+        bad = [taint[o[1]] for o in c.ops if isinstance(o, tuple) and o[0] == 'reg' and o[1] in taint]
+        if bad:
+            rep.fail('C19.R9', 'C19.R9:main.c:flexinit:%s:derived-from-%s' % (c.callee, re.sub(r'\W+', '_', bad[0])), where(c),
+                     'flexinit() passes a value derived from %s to %s(): flexinit runs before the %%option lines of the input are read, so the composed text '
+                     'reflects only the command-line spelling of the option' % (bad[0], c.callee))
+        else:
+            rep.ok('C19.R9', 'flexinit %s@%s: no argument depends on an option field' % (c.callee, c.line))
+    # the documented default output name is composed where the options are complete
+    g = prog.fn('check_options'); composed = False
+    gres = ir.Resolver(g)
+    for c in g.ins:
+        if c.op == 'call' and c.callee == 'snprintf':
+            for o in c.ops:
+                d = g.def_of(o) if isinstance(o, tuple) and o[0] == 'reg' else None
+                if d is not None and d.op == 'load':
+                    cl = ir.loc_class(gres.loc(d.ops[0]))
+                    if cl and cl[0] == 'field' and cl[2] == 'prefix': composed = True
+    n += 1
+    if composed: rep.ok('C19.R9', 'check_options: the default output name is composed from ctrl.prefix after the options of the input are known')
+    else: rep.fail('C19.R9', 'C19.R9:main.c:check_options:default-output-name-not-composed-here', fwhere(g),
+                   'check_options() no longer composes the default output file name from ctrl.prefix: it is the first point at which %option prefix / c++ / emit of the input file are known')
+    return n
+
 def run(ctx):
     rep = ctx.rep
     sp = lex.parse_spec(ctx.art.source('scan.l'))
@@ -775,6 +849,7 @@ def run(ctx):
     n6 = r6(ctx)
     r7(ctx)
     r8(ctx)
+    r9(ctx)
     rep.setcount('flexopt_enumerators', len(en)); rep.setcount('flexopts_entries', len(tbl))
     rep.setcount('plumbing_symbols', len(plumbing)); rep.setcount('cli_vs_option_pairs', n3)
     rep.floor('C19.R1', 100, '94 enumerators + 14 %option tokens')
@@ -784,6 +859,7 @@ def run(ctx):
     rep.floor('C19.R5', 12, 'options that carry a value')
     rep.floor('C19.R6', 10, 'table options x documented default of -7/-8')
     rep.floor('C19.R8', 4, 'reject / yymore override stores in readin')
+    rep.floor('C19.R9', 3, 'string-composing calls of flexinit (snprintf for -D, buf_strappend) + the default output name in check_options')
     rep.floor('C19.R7', 100, 'variants with internal yy_create_buffer call sites')
     rep.undecided += ['the observable run-time effect of each option (value-level)', 'documentation agreement of option descriptions',
                       'options that exist in only one spelling are compared with nothing']
